@@ -218,7 +218,9 @@ def t_r3(p: Project, rep: Report):
                         rep.check("T-R3", f"{name}.{famname}[{key}]:return#{i}", False, f"{h.qualname}: a path returns {rtxt[:80]}: a text that does not denote an integer ('5.7', '12e-1') is rounded / cut to one instead of being refused - the reader accepts what is not an integer and the model holds a number the document does not", tloc(p, h.fn))
                         continue
                     if name == "Integer" and famname == "convert" and key == "str":
-                        gates = [a_ for a_, w_ in sc.items() if any(m_ in a_ for m_ in (".isdigit()", ".isnumeric()", ".isdecimal()"))]
+                        vp_ = h.value_param()
+                        # the gate is on the text AS RECEIVED (a gate on value.lstrip('+-') admits the sign)
+                        gates = [a_ for a_, w_ in sc.items() if a_ in (f"bool({vp_}.isdigit())", f"bool({vp_}.isnumeric())", f"bool({vp_}.isdecimal())") and w_ is True]
                         if gates and "int(" in rtxt:
                             rep.check("T-R3", f"{name}.{famname}[{key}]:return#{i}:sign-admitted", False, f"{h.qualname}: the text reaches int() only if `{gates[0][:40]}`: str.isdigit() is False for a leading sign, so '-1' - which the writer emits for a negative value and int() reads - is refused on the way back (and it is True for digits int() rejects, such as superscripts)", tloc(p, h.fn))
                             continue
